@@ -153,7 +153,13 @@ def _intruder(o, cfg):
             vs = o2.get("declare", o2["vars"])
             if cfg.get("pastify"):
                 spec.pastify()
-            if "Offline" in o2["factory"] or (cfg.get("offline") and "Online" not in o2["factory"]):
+            if o2.get("dense"):
+                args = [[v, [[0, 1], [1, 0], [3, 2]]] for v in vs]
+                if "Offline" in o2["factory"] or (cfg.get("offline") and "Online" not in o2["factory"]):
+                    spec.evaluate(*args)
+                else:
+                    spec.update(*args)
+            elif "Offline" in o2["factory"] or (cfg.get("offline") and "Online" not in o2["factory"]):
                 d = {"time": [0, 1, 2]}
                 for v in vs:
                     d[v] = [1, 0, 2]
